@@ -261,6 +261,7 @@ type Query { dog: Dog dogs(first: Int = 3): [Dog!] find(name: String!): Dog }
 type Dog { name: String nickname: String owner: Human barks: Boolean }
 type Human { name: String pets: [Dog] }
 directive @once on FIELD | QUERY
+directive @both on FIELD_DEFINITION | FIELD | OBJECT | FRAGMENT_SPREAD
 directive @tag(name: String!) repeatable on FIELD | FRAGMENT_SPREAD | INLINE_FRAGMENT
 scalar Boolean
 scalar Float
